@@ -14,8 +14,11 @@ NSLICES = 64
 
 def spaces(tier):
     """(size, level, cfg, t0 names, gen kwargs, mutation mode)"""
+    small = dict(paths=['a', 'd', 'd/x', 'd/y', 'd/e/z'], bf_modes=['ok', 'rb', 'ra'], sb_modes=['ok', 'rb'])
     if tier == 'quick':
         return [
+            dict(family='observer', size=1, level=0, cfg='K0', t0=['empty', 'full', 'dir_d_j', 'file_d_e'], mut='all'),
+            dict(family='chain3', size=3, level=0, cfg='K0', t0=['empty'], mut='outputs'),
             dict(size=1, level=0, cfg='K0', t0=['empty', 'full', 'dir_d_j', 'file_d'], mut='all'),
             dict(size=1, level=1, cfg='K0', t0=['empty', 'full'], mut='all'),
             dict(size=1, level=2, cfg='K1', t0=['empty', 'dir_d_e'], mut='rel'),
@@ -25,6 +28,9 @@ def spaces(tier):
                  kw=dict(paths=['a', 'd', 'd/x', 'd/y', 'd/e/z'], bf_modes=['ok', 'rb', 'ra'], sb_modes=['ok', 'rb'])),
         ]
     return [
+        dict(family='observer', size=1, level=l, cfg=c, t0=list(gen.T0S), mut='all')
+        for l in (0, 1) for c in ('K0', 'K1')
+    ] + [
         dict(size=1, level=l, cfg=c, t0=list(gen.T0S), mut='all')
         for l in (0, 1, 2, 3) for c in ('K0', 'K1')
     ] + [
@@ -55,14 +61,20 @@ def work(ctx, task):
     world = World(ctx.sb, ctx.fb, sp['cfg'])
     full = mutation_alphabet()
     capped = False
-    for pi, prog in enumerate(gen.programs(sp['size'], sp['level'], **sp.get('kw', {}))):
+    for pi, prog in enumerate(gen.family(sp)):
         if pi % n != i:
             continue
         if ctx.deadline and time.time() > ctx.deadline:
             capped = True
             break
         acc.count('programs')
-        muts = [None] + (full if sp['mut'] == 'all' else relevant_mutations(prog, full))
+        if sp['mut'] == 'all':
+            muts = [None] + full
+        elif sp['mut'] == 'outputs':
+            muts = [None] + [[op, p] + (['A'] if op == 'w' else []) for p in sorted(set(gen.bf_paths(prog['root'])))
+                             for op in ('del', 'w', 'f2d')]
+        else:
+            muts = [None] + relevant_mutations(prog, full)
         for t0 in sp['t0']:
             world.start()
             for m in gen.T0S[t0]:
@@ -102,8 +114,8 @@ def coverage(res, tier):
         'histories': res.counters.get('histories', 0),
         'distinct_outcomes': len(res.outcomes),
         'exhaustive': not res.capped,
-        'bounds': [dict(size=s['size'], level=s['level'], cfg=s['cfg'], t0=s['t0'], mutations=s['mut'],
-                        restriction=s.get('kw', {})) for s in spaces(tier)],
+        'bounds': [dict(family=s.get('family', 'skel'), size=s['size'], level=s['level'], cfg=s['cfg'], t0=s['t0'],
+                        mutations=s['mut'], restriction=s.get('kw', {})) for s in spaces(tier)],
         'rule': 'every program of the stated size/level x every listed initial tree x every (relevant) external '
                 'mutation; history = T0, build P, m, build P, build P, clean, clean; each API call executed by '
                 'the implementation and by the reference model and compared (result, value, tree)',
